@@ -129,12 +129,11 @@ def random_cases(ctx, start):
             args, dmg, outs = [cmd] + fl + ["-type=" + rng.choice(good)], "none", ["x"]
         elif choice == "typeMissing":
             args, dmg = [cmd] + fl + ["-type=Nope"], "typeMissing"
-            outs = ["x"] if cmd == "rest" else []
         elif choice == "typeMissing2":
             if not good:
                 continue
             args, dmg = [cmd] + fl + ["-type=%s,Nope" % rng.choice(good)], "typeMissing"
-            outs = ["x"] if cmd in ("rest", "enum") else []
+            outs = ["x"] if cmd == "enum" else []
         elif choice == "fileMissing":
             args, dmg = [cmd] + fl + ["-file=nope.go"], "fileMissing"
         elif choice == "fileNotGo":
